@@ -22,6 +22,7 @@ META = {
 
 def programs(ctx):
     base = [c for c in F.f_unit(4)] + F.f_shape() + F.f_rand(ctx.seed, 30 if ctx.quick else 300, consts=False) + ([] if ctx.quick else F.f_small(2))
+    base += F.f_wide((17, 33) if ctx.quick else (17, 18, 20, 32, 33, 40))
     # net names that contain the dialect's keywords as substrings (buffer_en, obuff, BUFF_SEL, nand_out, dffq, INPUTa, ...)
     base += F.renamed([c for c in F.f_unit(3) if c[0][0] == "pair"][:10] + [c for c in F.f_unit(3, pairs=False)][:12] + F.f_shape(), "bench")
     out = []
